@@ -73,7 +73,9 @@ def make_schema(case, override=False):
     cls = univ.Sequence if case['container'] == 'SEQUENCE' else univ.Set
     govs = keycls()
     id_nt = namedtype.NamedType('id', govs)
-    if case.get('gov_default') is not None:
+    if case.get('gov_absent'):
+        id_nt = namedtype.OptionalNamedType('id', govs)         # ... and left out of the value: nothing governs the field
+    elif case.get('gov_default') is not None:
         # the governing component is declared DEFAULT: when the value equals the default it is not on the wire at all
         id_nt = namedtype.DefaultedNamedType('id', keycls(gov_py(gk, case['gov_default'])))
     z = univ.Integer().subtype(implicitTag=ptag.Tag(ptag.tagClassContext, ptag.tagFormatSimple, 9))
@@ -118,7 +120,8 @@ def run_case(case):
             continue
         s = sch.clone()
         s.clear()
-        s['id'] = g
+        if not case.get('gov_absent'):
+            s['id'] = g
         try:
             if is_of:
                 s['blob'].clear() if hasattr(s['blob'], 'clear') else None
@@ -152,6 +155,8 @@ def run_case(case):
         for sw, opts in switches:
             sub = '%s-%s' % (sw, cname)
             expect_typed = mapped if sw == 'resolve' else (sw == 'override')
+            if case.get('gov_absent'):
+                expect_typed = False
             chk_sch = in_sch
             if sw == 'override':
                 ov = in_sch.subtype(subtypeSpec=constraint.ConstraintsIntersection(PERMISSIVE[Tin['k']]()))
@@ -176,7 +181,10 @@ def run_case(case):
             r = d.value
             try:
                 rid = r['id']
-                okid = (tuple(rid) == g) if gk == 'OID' else (int(rid) == g)
+                if case.get('gov_absent'):
+                    okid = not rid.isValue
+                else:
+                    okid = (tuple(rid) == g) if gk == 'OID' else (int(rid) == g)
                 if not okid or int(r['z']) != 7:
                     F(sub, 'other-components', 'id / z changed: id=%s z=%s | e=%s' % (rid.prettyPrint(), r['z'].prettyPrint(), e.value.hex()[:120]))
                 if not r['blob'].isValue:
@@ -256,7 +264,11 @@ def run_shard(desc, seed, tier, col):
         if d.pct(25) and case['field'] != 'any':
             case['blob_opt'] = True         # the open type field itself is OPTIONAL (and present); an untagged OPTIONAL ANY in
                                             # front of another component would be ambiguous
-        if d.pct(35):
+        if d.pct(10):
+            case['gov_absent'] = True
+            if case['field'] == 'any':
+                case['field'] = 'any-explicit'
+        elif d.pct(35):
             case['gov_default'] = gov if d.pct(65) else mp[0][0]
             if case['field'] == 'any':
                 case['field'] = 'any-explicit'      # an untagged ANY after a component that may be absent would be ambiguous
@@ -267,7 +279,7 @@ def run_shard(desc, seed, tier, col):
         nontriv = ir.depth(Tin) >= 1 or case['field'] != 'any' or case['container'] == 'SET' or bool(case.get('override'))
         feats = ['field:' + case['field'], 'container:' + case['container'], 'gov:' + case['gov_kind'],
                  'mapped' if any(k == case['gov'] for k, _t in case['map']) else 'unmapped',
-                 'inner:constructed' if ir.depth(Tin) >= 1 else 'inner:primitive'] + (['override'] if case.get('override') else []) + ['map-fill:' + case['fill']] + (['governor-DEFAULT' + ('=value' if case.get('gov_default') == case['gov'] else '')] if case.get('gov_default') is not None else []) + (['field-OPTIONAL'] if case.get('blob_opt') else [])
+                 'inner:constructed' if ir.depth(Tin) >= 1 else 'inner:primitive'] + (['override'] if case.get('override') else []) + ['map-fill:' + case['fill']] + (['governor-DEFAULT' + ('=value' if case.get('gov_default') == case['gov'] else '')] if case.get('gov_default') is not None else []) + (['field-OPTIONAL'] if case.get('blob_opt') else []) + (['governor-absent'] if case.get('gov_absent') else [])
         col.case(case, nontriv, feats, sample={'map': [[k, ir.show_type(t)[:60]] for k, t in case['map']], 'container': case['container'],
                                                'field': case['field'], 'governing_value': case['gov'], 'inner_type': ir.show_type(Tin)[:80],
                                                'inner_values': absval.short(case['inner_values'], 100)})
